@@ -26,6 +26,7 @@ CONFIGS = {
     "funcsyn": ("  filename: graph/generated.go\n  package: graph", "use_function_syntax_for_execution_context: true\n"),
     "wl1": ("  filename: graph/generated.go\n  package: graph\n  worker_limit: 1", ""),
     "wl2": ("  filename: graph/generated.go\n  package: graph\n  worker_limit: 2", ""),
+    "wl8": ("  filename: graph/generated.go\n  package: graph\n  worker_limit: 8", ""),
     "omitptr": ("  filename: graph/generated.go\n  package: graph", "omit_slice_element_pointers: false\ncall_argument_directives_with_null: true\n"),
     "follow_wl2": ("  layout: follow-schema\n  dir: graph\n  package: graph\n  worker_limit: 2", ""),
 }
@@ -38,10 +39,11 @@ FED_CONFIGS = {
     "fed_explicit": (_SINGLE, "", "  options:\n    explicit_requires: true"),
     "fed_computed": (_SINGLE, "call_argument_directives_with_null: true\n", "  options:\n    computed_requires: true"),
     "fed_wl2": (_SINGLE + "\n  worker_limit: 2", "", ""),
+    "fed_v1": (_SINGLE, "", ""),
 }
 # the options probe: input objects under the options that change how they are handed around
 for _k, _o in {"opts_default": "", "opts_retptr": "return_pointers_in_unmarshalinput: true\n", "opts_valstruct": "struct_fields_always_pointers: false\n",
-               "opts_slices": "omit_slice_element_pointers: true\n",
+               "opts_slices": "omit_slice_element_pointers: true\n", "opts_omittable": "nullable_input_omittable: true\n",
                "opts_all": "return_pointers_in_unmarshalinput: true\nstruct_fields_always_pointers: false\nomit_slice_element_pointers: true\n"}.items():
     CONFIGS[_k] = (_SINGLE, _o)
 for _k in FED_CONFIGS:
@@ -69,7 +71,7 @@ def make_probe(probe, cfgname, scratch, env):
     fedopts = ""
     if cfgname.startswith("fed_"):
         ex, extra, fedopts = FED_CONFIGS[cfgname]
-    yml = open(os.path.join(src, "gqlgen.tmpl.yml")).read().replace("@EXEC@", ex).replace("@OPTIONS@", extra).replace("@FEDOPTS@", fedopts)
+    yml = open(os.path.join(src, "gqlgen.tmpl.yml")).read().replace("@EXEC@", ex).replace("@OPTIONS@", extra).replace("@FEDOPTS@", fedopts).replace("@FEDVER@", "1" if cfgname == "fed_v1" else "2")
     open(os.path.join(d, "gqlgen.yml"), "w").write(yml)
     r = subprocess.run(["go", "run", "gen_main.go"], cwd=d, env=env, capture_output=True, text=True)
     if r.returncode != 0:
